@@ -41,6 +41,14 @@ pub struct RecCase {
     pub inputs: Vec<Vec<u8>>,
     pub life: Life,
     pub stack_kib: usize,
+    /// input representation: 0 `&[u8]`, 1 `&str` (1-4-byte characters), 2 `Stream` over a pull iterator,
+    /// 3 `IoInput` over a short-reading reader. The unrolling runs on the same kind.
+    #[serde(default)]
+    pub kind: u8,
+    /// the recursive forms run on a thread with this stack (0 = the worker's); the unrolling, which
+    /// recurses natively, always runs on the worker's big stack
+    #[serde(default)]
+    pub small_stack_kib: usize,
 }
 
 #[derive(Clone, Debug, Serialize, Deserialize)]
@@ -62,41 +70,78 @@ pub struct RecSim;
 const TICK_CAP: u64 = 300_000;
 
 /// Outcome + number of user-closure calls (`hook::cb`) of the LAST parse of the lifecycle.
-fn run_one_counted(g: &G, toks: &[u8], mode: RecMode, life: &Life, pmode: PMode) -> (Outcome, u64) {
-    set_rec_mode(mode);
-    let built = std::panic::catch_unwind(std::panic::AssertUnwindSafe(|| build::<&[u8]>(g)));
-    set_rec_mode(RecMode::Direct);
-    let p: BP<'_, &[u8]> = match built {
-        Ok(p) => p,
-        Err(_) => return (Outcome::Panicked { msg: hook::take_panic() }, 0),
-    };
-    hook::begin_op(0, u64::MAX, u64::MAX);
-    hook::begin_ticks(TICK_CAP);
-    let o = match life {
-        Life::Value => exec::<&[u8], _, _>(&p, || toks, pmode, 0),
-        Life::CloneDropOriginal => {
-            let q = p.clone();
-            drop(p);
-            exec::<&[u8], _, _>(&q, || toks, pmode, 0)
-        }
-        Life::Reboxed => {
-            let q = p.clone();
-            let r = Parser::boxed(q.clone());
-            drop(p);
-            drop(q);
-            exec::<&[u8], _, _>(&r, || toks, pmode, 0)
-        }
-        Life::Twice => {
-            let _ = exec::<&[u8], _, _>(&p, || toks, pmode, 0);
-            hook::end_op();
+fn run_one_counted(g: &G, syms: &[u8], kind: u8, mode: RecMode, life: &Life, pmode: PMode) -> (Outcome, u64) {
+    use crate::sources::{Chunk, Hint, ReaderPolicy, SimIter, SimReader};
+    use chumsky::input::{IoInput, Stream};
+    use std::rc::Rc;
+    macro_rules! go {
+        ($I:ty, $mk:expr) => {{
+            set_rec_mode(mode);
+            let built = std::panic::catch_unwind(std::panic::AssertUnwindSafe(|| build::<$I>(g)));
+            set_rec_mode(RecMode::Direct);
+            let p: BP<'_, $I> = match built {
+                Ok(p) => p,
+                Err(_) => return (Outcome::Panicked { msg: hook::take_panic() }, 0),
+            };
             hook::begin_op(0, u64::MAX, u64::MAX);
             hook::begin_ticks(TICK_CAP);
-            exec::<&[u8], _, _>(&p, || toks, pmode, 0)
+            let o = match life {
+                Life::Value => exec::<$I, _, _>(&p, || $mk, pmode, 0),
+                Life::CloneDropOriginal => {
+                    let q = p.clone();
+                    drop(p);
+                    exec::<$I, _, _>(&q, || $mk, pmode, 0)
+                }
+                Life::Reboxed => {
+                    let q = p.clone();
+                    let r = Parser::boxed(q.clone());
+                    drop(p);
+                    drop(q);
+                    exec::<$I, _, _>(&r, || $mk, pmode, 0)
+                }
+                Life::Twice => {
+                    let _ = exec::<$I, _, _>(&p, || $mk, pmode, 0);
+                    hook::end_op();
+                    hook::begin_op(0, u64::MAX, u64::MAX);
+                    hook::begin_ticks(TICK_CAP);
+                    exec::<$I, _, _>(&p, || $mk, pmode, 0)
+                }
+            };
+            let (cbs, _, _) = hook::end_op();
+            hook::end_ticks();
+            (o, cbs)
+        }};
+    }
+    match kind {
+        1 => {
+            let text: String = syms.iter().map(|x| char::from_sym(*x)).collect();
+            go!(&str, &text[..])
         }
-    };
-    let (cbs, _, _) = hook::end_op();
-    hook::end_ticks();
-    (o, cbs)
+        2 => {
+            let toks: Rc<Vec<u8>> = Rc::new(syms.iter().map(|x| u8::from_sym(*x)).collect());
+            go!(Stream<SimIter<u8>>, Stream::from_iter(SimIter::new(toks.clone(), Hint::Unknown).0))
+        }
+        3 => {
+            let toks: Rc<Vec<u8>> = Rc::new(syms.iter().map(|x| u8::from_sym(*x)).collect());
+            go!(IoInput<SimReader>, {
+                let mut pol = ReaderPolicy::full();
+                pol.chunk = Chunk::Fixed(3);
+                IoInput::new(SimReader::new(toks.clone(), pol, Rng::new(5)).0)
+            })
+        }
+        _ => {
+            let toks: Vec<u8> = syms.iter().map(|x| u8::from_sym(*x)).collect();
+            go!(&[u8], &toks[..])
+        }
+    }
+}
+
+/// Run `f` on a thread with a small stack (the recursive forms: the stack guard has to do its work).
+fn on_stack<T: Send>(kib: usize, f: impl FnOnce() -> T + Send) -> T {
+    if kib == 0 {
+        return f();
+    }
+    std::thread::scope(|s| std::thread::Builder::new().stack_size(kib << 10).spawn_scoped(s, f).expect("spawn").join().expect("small-stack thread died (harness)"))
 }
 
 pub struct Verdict {
@@ -110,15 +155,16 @@ pub fn run_spec(c: &RecCase) -> (u64, Option<Verdict>, bool, Option<String>) {
     let g = c.grammar.clone();
     let inputs = c.inputs.clone();
     let life = c.life.clone();
+    let (kind, small) = (c.kind, c.small_stack_kib);
     let stack = c.stack_kib << 10;
     let body = move || {
                 let mut d = 0u64;
                 for syms in &inputs {
-                    let toks: Vec<u8> = syms.iter().map(|x| u8::from_sym(*x)).collect();
+                    let toks: &Vec<u8> = syms;
                     let k = toks.len() + 2;
                     for pmode in [PMode::Parse, PMode::Check] {
                         // the unrolling is the reference; it never touches Recursive or stacker
-                        let (u, ucalls) = run_one_counted(&g, &toks, RecMode::Unroll(k), &Life::Value, pmode);
+                        let (u, ucalls) = run_one_counted(&g, toks, kind, RecMode::Unroll(k), &Life::Value, pmode);
                         if let Outcome::Panicked { msg } = &u {
                             if msg.starts_with(hook::BUDGET_MSG) {
                                 return (d, None, true, None);
@@ -132,7 +178,10 @@ pub fn run_spec(c: &RecCase) -> (u64, Option<Verdict>, bool, Option<String>) {
                         }
                         d = fold(d, u.digest());
                         for (name, mode) in [("recursive()", RecMode::Direct), ("declare/define", RecMode::Indirect)] {
-                            let (o, ocalls) = run_one_counted(&g, &toks, mode, &life, pmode);
+                            let (o, ocalls) = {
+                                let (g, life) = (&g, &life);
+                                on_stack(small, move || run_one_counted(g, toks, kind, mode, life, pmode))
+                            };
                             d = fold(d, o.digest());
                             if o != u {
                                 let class = if o.is_panic() && !u.is_panic() { "recursive-panics-unrolling-does-not" } else { "differs-from-unrolling" };
@@ -190,7 +239,20 @@ pub fn gen_case(seed: u64, idx: u64) -> Option<RecCase> {
     // the unrolled reference recurses natively (no stack guard): keep the stack roomy enough for it,
     // the guarded forms get no benefit from it
     let stack_kib = if rng.chance(1, 8) { *rng.pick(&[1024usize, 2048, 8192]) } else { 0 };
-    Some(RecCase { grammar: g, inputs, life, stack_kib })
+    // drawn after everything else: the input kind, and deep cases (one in 24: a derivation with hundreds
+    // of nested self-references; the recursive forms then run on a 128 / 256 KiB stack)
+    let kind = if rng.chance(1, 3) { 1 + rng.below(3) as u8 } else { 0 };
+    let mut small_stack_kib = 0;
+    if rng.chance(1, 24) {
+        let fuel = *rng.pick(&[1500i64, 4000]);
+        let deep = gram::gen_input_fuel(&g, &mut rng, cfg.nsym, 1500, fuel);
+        if deep.len() > 60 {
+            inputs = vec![deep];
+            small_stack_kib = *rng.pick(&[128usize, 256]);
+        }
+    }
+    let stack_kib = if small_stack_kib > 0 { 0 } else { stack_kib };
+    Some(RecCase { grammar: g, inputs, life, stack_kib, kind, small_stack_kib })
 }
 
 impl Engine for RecSim {
@@ -267,6 +329,10 @@ impl Engine for RecSim {
         acc.add("evaluations.comparisons_with_unrolling", 4 * case.inputs.len() as u64);
         acc.inc(&format!("lifecycle.{:?}", case.life));
         acc.inc(&format!("stack_kib.{}", case.stack_kib));
+        acc.inc(&format!("input_kind.{}", ["&[u8]", "&str", "Stream", "IoInput"][case.kind as usize % 4]));
+        if case.small_stack_kib > 0 {
+            acc.inc("cases.deep_derivation_on_a_small_stack(recursive forms on 128/256 KiB, unrolling on the worker's stack)");
+        }
         let maxlen = case.inputs.iter().map(|v| v.len()).max().unwrap_or(0);
         acc.max("max.unroll_depth", maxlen as u64 + 2);
         // non-trivial: some input makes the recursion actually nest (an opener symbol occurs twice)
